@@ -25,6 +25,10 @@ SparseWeightMatrix tangent_weight_matrix(RandomAccessIterator begin, RandomAcces
     timed_context context("KLTSA weight matrix computation");
     const IndexType k = neighbors[0].size();
 
+    if (target_dimension > k)
+        throw wrong_parameter_error(fmt::format("Target dimension {} is greater than the number of neighbors {}",
+                                                target_dimension, k));
+
     SparseTriplets sparse_triplets;
     sparse_triplets.reserve((static_cast<size_t>(k) * k + 2 * k + 1) * (end - begin));
 
@@ -165,6 +169,10 @@ SparseWeightMatrix hessian_weight_matrix(RandomAccessIterator begin, RandomAcces
 {
     timed_context context("Hessian weight matrix computation");
     const IndexType k = neighbors[0].size();
+
+    if (target_dimension > k)
+        throw wrong_parameter_error(fmt::format("Target dimension {} is greater than the number of neighbors {}",
+                                                target_dimension, k));
 
     SparseTriplets sparse_triplets;
     sparse_triplets.reserve(static_cast<size_t>(k) * k * (end - begin));
